@@ -49,7 +49,10 @@ func (e *Engine) newVC(fn *ssa.Function, con *Contract) *VC {
 }
 
 func (e *Engine) defaultMode(fn *ssa.Function) Mode {
-	p := fn.Pkg.Pkg.Path()
+	return pathMode(fn.Pkg.Pkg.Path())
+}
+
+func pathMode(p string) Mode {
 	switch {
 	case p == repoMod+"/types", strings.HasPrefix(p, repoMod+"/store"), p == repoMod+"/x/pos/types", p == repoMod+"/crypto":
 		return HeapMode
@@ -350,11 +353,42 @@ func (e *Engine) runPass(vc *VC) {
 			vc.used["lemma."+u] = true
 		}
 	}
-	for _, inv := range vc.eng.invariantsOf(con) {
+	for _, inv := range vc.invariantsOf(con) {
 		ienv := *env
 		ienv.pkg = vc.eng.typesPkg[inv.Pkg]
 		vc.assume(vc.evalHyp(inv.Expr, &ienv, tTrue))
 		vc.assumes["package invariant "+inv.Name+" assumed at entry (established by package init, preserved by every function under contract)"] = true
+	}
+	for _, cl := range con.Clauses {
+		if cl.Kind != "instance" {
+			continue
+		}
+		// instance lemma(args): the separately proved lemma, instantiated at these terms
+		if cl.Expr.Op != "call" {
+			vc.errorf("instance: expected lemma(args)")
+			continue
+		}
+		ln, _ := dottedName(cl.Expr.Args[0])
+		lc := vc.eng.contracts["lemma."+ln]
+		if lc == nil || !lc.Lemma || len(lc.Params) != len(cl.Expr.Args)-1 {
+			vc.errorf("instance: unknown lemma %s or wrong arity", ln)
+			continue
+		}
+		lenv := &SpecEnv{vc: vc, vars: map[string]SV{}, cur: entry, old: entry, mode: vc.mode}
+		for i, pn := range lc.Params {
+			lenv.vars[pn] = vc.evalSpec(cl.Expr.Args[i+1], env)
+		}
+		var reqs, enss []T
+		for _, lcl := range lc.Clauses {
+			switch lcl.Kind {
+			case "requires":
+				reqs = append(reqs, vc.evalBool(lcl.Expr, lenv))
+			case "ensures":
+				enss = append(enss, vc.evalBool(lcl.Expr, lenv))
+			}
+		}
+		vc.assume(implies(and(reqs...), and(enss...)))
+		vc.used["lemma."+ln] = true
 	}
 	for _, cl := range con.Clauses {
 		if cl.Kind == "hint" {
@@ -381,7 +415,14 @@ func (e *Engine) runPass(vc *VC) {
 		}
 	}
 	rnames := con.Results
+	// return sites are numbered in source order
+	sort.SliceStable(fr.rets, func(i, j int) bool { return fr.rets[i].pos < fr.rets[j].pos })
 	for k, r := range fr.rets {
+		if r.pos.IsValid() {
+			vc.retLines = append(vc.retLines, fmt.Sprintf("ret%d=line %d", k+1, fn.Prog.Fset.Position(r.pos).Line))
+		} else {
+			vc.retLines = append(vc.retLines, fmt.Sprintf("ret%d=end", k+1))
+		}
 		penv := vc.topEnv(r.st)
 		for j, v := range r.vals {
 			if j < len(rnames) {
@@ -403,7 +444,7 @@ func (e *Engine) runPass(vc *VC) {
 			o := vc.oblige("post", fmt.Sprintf("ret%d.post.%s", k+1, tag), r.guard, vc.evalGoal(cl.Expr, penv))
 			_ = o
 		}
-		for _, inv := range vc.eng.invariantsOf(con) {
+		for _, inv := range vc.invariantsOf(con) {
 			ienv := *penv
 			ienv.pkg = vc.eng.typesPkg[inv.Pkg]
 			vc.oblige("post", fmt.Sprintf("ret%d.inv.%s", k+1, inv.Name), r.guard, vc.evalGoal(inv.Expr, &ienv))
@@ -414,6 +455,17 @@ func (e *Engine) runPass(vc *VC) {
 			}
 		}
 		vc.frameObligations(k+1, r, env)
+		isDead := false
+		for _, d := range con.Dead {
+			if d == fmt.Sprintf("ret%d", k+1) {
+				isDead = true
+			}
+		}
+		if isDead {
+			// declared unreachable (e.g. an error path of a callee whose contract rules the error out)
+			vc.oblige("dead", fmt.Sprintf("ret%d.unreachable", k+1), r.guard, tFalse)
+			continue
+		}
 		c := vc.oblige("cover", fmt.Sprintf("ret%d.reachable", k+1), r.guard, tFalse)
 		if c != nil {
 			c.Expect = "sat"
@@ -580,6 +632,16 @@ func (vc *VC) buildQuery(o *Obligation) string {
 		body.WriteString("\n")
 	}
 	body.WriteString(o.Goal)
+	for _, h := range o.Hints {
+		body.WriteString(h)
+	}
+	// base-prelude functions mentioned by this VC select the prelude axioms about them
+	bt := body.String()
+	for _, bf := range vc.eng.baseFuncs {
+		if !vc.preludeUsed[bf] && strings.Contains(bt, bf) {
+			vc.preludeUsed[bf] = true
+		}
+	}
 	body.WriteString(vc.eng.preludeText(vc.preludeUsed))
 	basePrelude := neededBase(body.String())
 	if o.Expect == "sat" {
@@ -780,4 +842,15 @@ func neededBase(text string) string {
 		}
 	}
 	return sb.String()
+}
+
+// package invariants talk about the heap representation; they do not apply in value mode
+func (vc *VC) invariantsOf(con *Contract) []*Invariant {
+	var out []*Invariant
+	for _, inv := range vc.eng.invariantsOf(con) {
+		if pathMode(inv.Pkg) == vc.mode {
+			out = append(out, inv)
+		}
+	}
+	return out
 }
